@@ -114,7 +114,7 @@ SRC_TIE = {
     "C13": _E + ["allowedEvents", "decl"] + ["surface", "objects"],
     "C15": ["decl", "factory"] + ["surface", "objects"],
     "C18": ["diagram"] + ["surface"],
-    "C10": ["store", "smInit"] + ["surface", "glue", "objects"],
+    "C10": ["store", "smInit", "getState", "setState"] + ["surface", "glue", "objects"],
     "C12": ["smInit", "registerCallbacks", "addListener", "registry", "specs", "takeCallback"],
     "C17": ["getState", "setState", "registerCallbacks", "addListener"] + ["surface"],
     "C09": ["visitConnected", "classCheck", "metaInit", "transitionInit", "decl", "objects"],
